@@ -9,6 +9,7 @@ UNIT_MODULES = {
     "GenCrash": "gen_crash",
     "GenFmt": "gen_fmt",
     "GenInfini": "gen_infini",
+    "GenLabel": "gen_label",
     "GenMissing": "gen_missing",
     "GenFarmer": "gen_farmer",
     "GenHarvest": "gen_harvest",
